@@ -273,8 +273,38 @@ void run_case(Rng& rng, std::uint64_t idx)
     sample(J(info).u("collectives", world.collectives).u("schedules", world.schedules.size()), 5);
 }
 
+// an iteration with more calls than a float can count exactly (2^24): the counters are reduced as integers and must
+// stay exact (no recording here, the integrand is trivial)
+T trivial_f(hep::mc_point<T> const& p) { return T(0.5) + p.point()[0]; }
+
+void big_count_case(Rng& rng)
+{
+    int P = (int)rng.range(2, 3);
+    std::size_t N = (std::size_t(1) << 24) + 5 + 2 * rng.below(4);     // odd: not representable in float
+    std::vector<std::size_t> nz(P), fin(P), cl(P);
+    VfWorld world;
+    typedef hep::plain_chkpt_with_rng<std::minstd_rand, T> C;
+    struct Go { bool operator()(MPI_Comm, C const&) const { return true; } };
+    vf_mpi_run(world, P, rng.next(), [&](int rank, MPI_Comm comm) {
+        C r = hep::mpi_plain(comm, hep::make_integrand<T>(trivial_f, 1), std::vector<std::size_t>(1, N), C(std::minstd_rand()), Go());
+        nz[rank] = r.results()[0].non_zero_calls(); fin[rank] = r.results()[0].finite_calls(); cl[rank] = r.results()[0].calls();
+    });
+    ++ctx().evaluations;
+    count("iterations_with_more_than_2^24_calls");
+    J info;
+    info.s("T", tname<T>::get()).u("world", P).u("calls", N);
+    if (world.aborted) { viol("collective-mismatch-or-hang:mpi_plain", J(info).s("reason", world.abort_reason)); return; }
+    for (int r = 0; r < P; ++r)
+        if (nz[r] != N || fin[r] != N || cl[r] != N) { viol("counters-differ-from-serial:large-iteration", J(info).u("rank", r).u("non_zero_calls", nz[r]).u("finite_calls", fin[r]).u("calls", cl[r])); return; }
+    nontrivial(hash_str(info.str()));
+}
+
 } // namespace
 
 std::uint64_t vfh_num_cases(bool thorough) { return thorough ? 2400 : 150; }
-void vfh_run_case(std::uint64_t idx, Rng& rng) { run_case(rng, idx); }
+void vfh_run_case(std::uint64_t idx, Rng& rng)
+{
+    if (idx == 149 && std::is_same<T, float>::value) { big_count_case(rng); return; }
+    run_case(rng, idx);
+}
 void vfh_selftest() {}
